@@ -4,7 +4,7 @@ statement demands, with a black-box probe of the borrow slots; and the strong+we
 one allocation scenario (D11).  No model: the oracle is the statement."""
 import os, subprocess
 
-TAKES = {'C02': ('slots:', 'count:'), 'C15': ('identity:', 'count:', 'slots:'), 'C12': ('cross-kind:',), 'C09': ()}
+TAKES = {'C02': ('slots:', 'count:'), 'C15': ('identity:', 'count:', 'slots:'), 'C12': ('cross-kind:',), 'C09': (), 'C14': ('identity:', 'count:')}
 # C09 takes no line of a finished run: for it only a call that never returns counts (the program hangs)
 
 def run(pid, tier, seed, ROOT, REPO, WORK):
@@ -28,8 +28,8 @@ def run(pid, tier, seed, ROOT, REPO, WORK):
         out['violations'].append((f'count: the container-level program over the pointer kinds died (exit status {p.returncode}): {p.stderr.strip().splitlines()[-1][:200] if p.stderr.strip() else ""}', path))
         return out
     mine = [l for l in lines if l.startswith(TAKES.get(pid, ()))] if TAKES.get(pid) else []
-    out['coverage'] = {'kinds_container_programs': 79, 'kinds_container_violations_seen': len([l for l in lines if not l.startswith('kindscont: ')]),
-                       'kinds_container_rule': 'one program (1/3/8 guards taken and dropped, load_full, Guard::into_inner, store and swap with guards held, compare_and_swap, rcu, into_inner) over ArcSwapAny<K> for K in Arc, Rc, Option of either, Weak, rc::Weak x pointee layouts x count states (unique, shared, outstanding weaks, target dropped, dangling, None); after each phase the counts are what they were and eight probe guards of an unrelated container are all borrowed (no borrow slot stays occupied); plus a strong and a weak container of one allocation'}
+    out['coverage'] = {'kinds_container_programs': 237, 'kinds_container_violations_seen': len([l for l in lines if not l.startswith('kindscont: ')]),
+                       'kinds_container_rule': 'one program (1/3/8 guards taken and dropped, load_full, Guard::into_inner, store and swap with guards held, compare_and_swap, rcu, into_inner) over ArcSwapAny<K, S> for the three strategies S (default, fallback-only, lock-based) and K in Arc, Rc, Option of either, Weak, rc::Weak x pointee layouts x count states (unique, shared, outstanding weaks, target dropped, dangling, None); after each phase the counts are what they were and eight probe guards of an unrelated container are all borrowed (no borrow slot stays occupied); plus a strong and a weak container of one allocation'}
     if mine:
         path = os.path.join(ROOT, 'replays'); os.makedirs(path, exist_ok=True)
         path = os.path.join(path, f'{pid}-kindscont.txt')
